@@ -12,11 +12,12 @@ random values consumed and, for completions, td and the bits of w = math.Exp(flo
 import math
 import struct
 
-from vlib import cZ, cnat, clist, cpair
+from vlib import cZ, cnat, cbool, clist, cpair
 
 ID = "C14"
 GO_PKG = "./rpc/internal/balancer/p2c"
 _P = "rpc/internal/balancer/p2c/p2c.go"
+_C = "rpc/internal/client.go"
 GEN_SPEC = {"items": [
     {"kind": "const", "file": _P, "name": "initSuccess"},
     {"kind": "const", "file": _P, "name": "throttleSuccess"},
@@ -31,6 +32,18 @@ GEN_SPEC = {"items": [
     {"kind": "calls", "file": _P, "func": "ewma", "as": "ewma_calls"},
     {"kind": "calls", "file": _P, "func": "subConn.healthy", "as": "healthy_calls"},
     {"kind": "calls", "file": _P, "func": "subConn.load", "as": "load_calls"},
+    # client wiring (rpc/internal/client.go)
+    {"kind": "const", "file": _P, "name": "Name"},
+    {"kind": "calls", "file": _C, "func": "NewClient", "as": "newclient_calls"},
+    {"kind": "calls", "file": _C, "func": "client.buildDialOptions", "as": "build_calls"},
+    {"kind": "calls", "file": _C, "func": "WithDialOption", "as": "with_dialoption_calls"},
+    {"kind": "calls", "file": _C, "func": "WithNonBlock", "as": "with_nonblock_calls"},
+    {"kind": "calls", "file": _C, "func": "WithTimeout", "as": "with_timeout_calls"},
+    {"kind": "calls", "file": _C, "func": "WithTransportCredentials", "as": "with_creds_calls"},
+    {"kind": "calls", "file": _C, "func": "WithUnaryClientInterceptor", "as": "with_unary_calls"},
+    {"kind": "calls", "file": _C, "func": "WithStreamClientInterceptor", "as": "with_stream_calls"},
+    {"kind": "calls", "file": _C, "func": "WithUnaryClientInterceptors", "as": "unary_chain_calls"},
+    {"kind": "calls", "file": _C, "func": "WithStreamClientInterceptors", "as": "stream_chain_calls"},
 ]}
 QUICK_N = 300
 THOROUGH_N = 4000
@@ -42,7 +55,10 @@ RULE = ("histories of 8-60 pick/done/advance steps over n in {0,1,2,3,4,5,8} rea
         "per-connection failure profiles, a few double-called done funcs; directed families: score exactly at the "
         "500 threshold with >= 3 conns, 2-conn force-pick boundary (1 s +- 1 ns), 500+ consecutive failing "
         "completions 1-3 ns apart (slowest possible decay), float-rounding regressions (corpus); non-trivial = "
-        ">= 2 successful picks and >= 1 completion; distinct = distinct canonical case JSON")
+        ">= 2 successful picks and >= 1 completion; distinct = distinct canonical case JSON; plus client-wiring cases: "
+        "NewClient with every single exported ClientOption, every option before/after WithTransportCredentials and random "
+        "sequences (0-8 options, repeats, full permutations) against 2-3 in-process grpc backends behind direct:///, "
+        "300 calls each")
 TRUSTED = ["math.Exp: w is taken from the driver (same Go expression, in-package) and only checked against "
            "0 <= w <= 1, td > 0 -> w < 1, td = 0 -> w = 1 on every value used",
            "Coq primitive binary64 floats (PrimFloat under vm_compute) perform the same IEEE-754 mul/add/sub/sqrt and "
@@ -248,15 +264,64 @@ def stat_check(case, obs):
 
 def drive(cases, tier):
     import vlib
-    obs, log = vlib.run_driver(GO_PKG, cases, name=ID if tier != "search" else ID + "s", timeout=DRIVER_TIMEOUT)
-    if obs is None:
-        return obs, log
-    for c, o in zip(cases, obs):
+    sfx = "s" if tier == "search" else ""
+    bal = [c for c in cases if c.get("kind") != "client"]
+    cli = [c for c in cases if c.get("kind") == "client"]
+    log = ""
+    obs_b, obs_c = [], []
+    if bal:
+        obs_b, log = vlib.run_driver(GO_PKG, bal, name=ID + sfx, timeout=DRIVER_TIMEOUT)
+        if obs_b is None:
+            return None, log
+    if cli:
+        obs_c, log2 = vlib.run_driver(CLI_PKG, cli, name=ID + "c" + sfx, timeout=DRIVER_TIMEOUT)
+        if obs_c is None:
+            return None, log2
+        log += log2[-2000:]
+    for c, o in zip(bal, obs_b):
         if c.get("stat"):
             msg = stat_check(c, o)
             if msg:
                 return None, msg + "\ncase: " + repr({k: v for k, v in c.items() if k != "ops"})
-    return obs, log
+    ib, ic = iter(obs_b), iter(obs_c)
+    return [next(ic) if c.get("kind") == "client" else next(ib) for c in cases], log
+
+
+CLI_PKG = "./rpc/internal"
+CLI_KINDS = ["dial", "nonblock", "timeout", "creds", "unary", "stream"]
+
+
+def _cli_opt(rng, kind, tags):
+    if kind == "dial":
+        tags[0] += 1
+        return {"o": "dial", "tag": tags[0]}
+    if kind == "timeout":
+        return {"o": "timeout", "ms": rng.choice([500, 1000, 2000, 5000])}
+    return {"o": kind}
+
+
+def _client_case(rng, kinds=None):
+    """NewClient with a sequence of exported ClientOptions (any subset, order, multiplicity) against 2-3 in-process
+    backends behind direct:///; 300 calls."""
+    tags = [0]
+    if kinds is None:
+        kinds = [rng.choice(CLI_KINDS) for _ in range(rng.choice([0, 1, 1, 2, 2, 3, 3, 4, 5, 6, 8]))]
+        if rng.random() < 0.3:
+            kinds = rng.sample(CLI_KINDS, len(CLI_KINDS))       # a permutation of all of them
+    return {"kind": "client", "backends": rng.choice([2, 2, 3]), "calls": 300,
+            "opts": [_cli_opt(rng, k, tags) for k in kinds]}
+
+
+def _client_cases(rng, n):
+    out = [_client_case(rng, [])]
+    for k in CLI_KINDS:                                         # every option alone
+        out.append(_client_case(rng, [k]))
+    for a in CLI_KINDS:                                         # every option before / after credentials
+        out.append(_client_case(rng, [a, "creds"]))
+        out.append(_client_case(rng, ["creds", a]))
+    while len(out) < n:
+        out.append(_client_case(rng))
+    return out[:max(n, 19)]
 
 
 def generate(rng, tier, n):
@@ -274,6 +339,7 @@ def generate(rng, tier, n):
     if tier != "search":
         cases.append(_slow_decay_case(rng))
         cases.append(_stat_case(rng, 3, 500))
+    cases += _client_cases(rng, 300 if tier == "thorough" else 40 if tier == "quick" else 60)
     if tier == "thorough":
         for m in (3, 5, 8):
             cases.append(_stat_case(rng, m, 2000))
@@ -303,7 +369,31 @@ def _row(r):
 _ERR = {"": 0, "noconn": 1, "other": 2}
 
 
+def _encode_client(case, obs):
+    xs = []
+    for o in case["opts"]:
+        k = o["o"]
+        xs.append({"dial": "XDial %s" % cnat(o.get("tag", 0)), "nonblock": "XNonBlock",
+                   "timeout": "XTimeout %s" % cZ(o.get("ms", 0)), "creds": "XCreds", "unary": "XUnary",
+                   "stream": "XStream"}[k])
+    labels = []
+    for l in obs.get("labels") or []:
+        labels.append(cZ(-2 if l == "svc" else int(l[1:]) if l.startswith("u") else -1))
+    failed = bool(obs.get("dial_err")) or "error" in obs or "driver_panic" in obs
+    return "CC (mkccase %s %s %s %s %s %s %s %s %s %s)" % (
+        cnat(case["backends"]), clist(xs), cZ(case["calls"]), clist(labels), cbool(failed),
+        _cs(obs.get("svc", "")), _cs(obs.get("balancer", "")), clist([cZ(x) for x in obs.get("counts") or []]),
+        cZ(obs.get("calls", 0)), cZ(obs.get("errs", 0)))
+
+
+def _cs(x):
+    from vlib import cstr
+    return cstr("".join(ch if 32 <= ord(ch) < 127 else "?" for ch in x))
+
+
 def encode(case, obs):
+    if case.get("kind") == "client":
+        return _encode_client(case, obs)
     steps = []
     prev = [[0, 0, 1000, 0, 0, 0] for _ in range(case["n"])]
     for op, st in zip(case["ops"], obs["steps"]):
@@ -327,10 +417,12 @@ def encode(case, obs):
             cZ(st["idx"]), cZ(st["id"]), cZ(_ERR.get(st["err"], 2)), cZ(st["used"]), cZ(st["over"]), cZ(st["conn"]),
             cZ(st["td"]), cZ(st["wbits"]), cZ(st["now"]), clist(delta), cZ(st["stamp"]))
         steps.append("(%s, %s)" % (x, o))
-    return "mkcase %s %s %s %s" % (cnat(case["n"]), cZ(case["start"]), clist([cnat(i) for i in obs["order"]]), clist(steps))
+    return "CB (mkcase %s %s %s %s)" % (cnat(case["n"]), cZ(case["start"]), clist([cnat(i) for i in obs["order"]]), clist(steps))
 
 
 def nontrivial(case, obs):
+    if case.get("kind") == "client":
+        return len(case["opts"]) >= 1 and case["backends"] >= 2
     picks = sum(1 for st in obs["steps"] if st["idx"] >= 0)
     dones = sum(1 for st in obs["steps"] if st["conn"] >= 0)
     return picks >= 2 and dones >= 1
@@ -341,6 +433,13 @@ def _w(bits):
 
 
 def bucket(case, obs):
+    if case.get("kind") == "client":
+        out = ["client:backends=%d" % case["backends"], "client:opts=%d" % len(case["opts"])]
+        out += ["client:opt:" + o["o"] for o in case["opts"]]
+        out.append("client:balancer=" + str(obs.get("balancer")))
+        if obs.get("counts") and min(obs["counts"]) == 0:
+            out.append("client:UNSERVED-BACKEND")
+        return sorted(set(out))
     out = ["n=%d" % case["n"], "ops<=%d" % (10 ** len(str(len(case["ops"]))))]
     seen = set()
     called = set()
@@ -373,4 +472,6 @@ def explain(case, obs):
             "(c14_success_range / c14_success_monotone), or a latency estimate outside the observed latencies "
             "(c14_lag_between_min_max), or a score above 500 after 500 consecutive failing completions, or (>= 3 conns) a "
             "connection outside the first all-healthy drawn pair was chosen (c14_unhealthy_avoided), or (2 conns) the "
-            "connection not picked for more than 1 s was not picked (c14_force_pick)")
+            "connection not picked for more than 1 s was not picked (c14_force_pick); client cases: the ClientConn built by "
+            "NewClient does not run the p2c_ewma balancer / lost its default service config, or a ready backend "
+            "received no call (c14_client_keeps_balancer)")
